@@ -100,7 +100,7 @@ func FindCrashes(p *Prog, f *Func, budget int, want []ast.Node) (map[ast.Node]*W
 	}
 	var stats WitnessStats
 	if budget == 0 {
-		budget = 4000000
+		budget = 6000000
 	}
 	type inputKind struct {
 		t    types.Type
@@ -239,8 +239,14 @@ func FindCrashes(p *Prog, f *Func, budget int, want []ast.Node) (map[ast.Node]*W
 		}
 		return false
 	}
-	for _, en := range enums {
-		for _, sc := range scalars {
+	// small values first, for every enumerated code: long loops (large
+	// quantities) are expensive and rarely needed for a witness
+	skip := map[int64]bool{} // codes whose evaluation never read a scalar input
+	for si, sc := range scalars {
+		for _, en := range enums {
+			if skip[en] && si > 0 {
+				continue
+			}
 			if stats.Steps > budget {
 				stats.Exhausted = true
 				return found, stats
@@ -284,7 +290,7 @@ func FindCrashes(p *Prog, f *Func, budget int, want []ast.Node) (map[ast.Node]*W
 				}
 			}
 			if !usedScalar {
-				break
+				skip[en] = true
 			}
 		}
 	}
